@@ -150,40 +150,70 @@ CLAUSE = {
 
 
 def replay_sequential(ck, edges, cap):
-    from s3transfer.utils import SlidingWindowSemaphore
+    """All edges inside one cooperative run with a single controlled thread,
+    so that a lock left held by the real code shows up as a detected
+    deadlock instead of hanging the check."""
+    import s3transfer.utils as U
     paths = _paths(edges)
-    n = 0
-    for e in edges:
-        pre = paths.get(_key(e['from']))
-        if pre is None:
-            continue
-        sem = SlidingWindowSemaphore(cap)
-        hist = []
-        bad = None
-        for step in pre + [e]:
-            op = step['op']
-            got = _apply_seq(sem, op)
-            hist.append([op['op'], op['tag'], op['tok'], got[0], got[1]])
-            if got != _expect(op):
-                bad = (CLAUSE[op['res']], f'expected {_expect(op)} got {got}')
-                break
-            c = sem.current_count()
-            if c != step['to']['count']:
-                bad = ('C12_CapacityEquation',
-                       f"capacity {c}, model {step['to']['count']}")
-                break
-        n += 1
-        ck.distinct(['seq', cap, hist])
-        if n <= 2:
-            ck.sample({'kind': 'spec->code edge', 'cap': cap, 'ops': hist})
-        if bad:
-            last = hist[-1]
-            ck.violation(bad[0], {
-                'component': 'SlidingWindowSemaphore', 'mode': 'sequential',
-                'cap': cap, 'op': last[0], 'detail': bad[1], 'history': hist,
-                'last_result': last[3],
-            }, replay={'kind': 'c12-seq', 'cap': cap, 'ops': hist})
-    return n
+    cur = {}
+    found = []
+    count = [0]
+
+    def body():
+        for e in edges:
+            pre = paths.get(_key(e['from']))
+            if pre is None:
+                continue
+            sem = U.SlidingWindowSemaphore(cap)
+            hist = []
+            cur['hist'] = hist
+            bad = None
+            for step in pre + [e]:
+                op = step['op']
+                hist.append([op['op'], op['tag'], op['tok'], '?', None])
+                got = _apply_seq(sem, op)
+                hist[-1][3:] = [got[0], got[1]]
+                if got != _expect(op):
+                    bad = (CLAUSE[op['res']],
+                           f'expected {_expect(op)} got {got}')
+                    break
+                c = sem.current_count()
+                if c != step['to']['count']:
+                    bad = ('C12_CapacityEquation',
+                           f"capacity {c}, model {step['to']['count']}")
+                    break
+            count[0] += 1
+            ck.distinct(['seq', cap, hist])
+            if count[0] <= 2:
+                ck.sample({'kind': 'spec->code edge', 'cap': cap,
+                           'ops': [list(h) for h in hist]})
+            if bad:
+                found.append((bad[0], bad[1], [list(h) for h in hist]))
+                if len(found) > 60:
+                    return
+
+    s = coop.Scheduler(coop.FifoChooser(), max_steps=10 ** 9)
+    with coop.installed(s, threading_modules=('s3transfer.utils',),
+                        time_modules=()):
+        s.run(body, name='replayer')
+    if s.failure:
+        hist = [list(h) for h in cur.get('hist', [])]
+        # the operation that hung is the last one; the one before it left
+        # the semaphore unusable
+        prev = hist[-2] if len(hist) > 1 else hist[-1]
+        found.append((CLAUSE.get(prev[3], 'C12_CapacityEquation'),
+                      f'{s.failure}: operation after {prev[:3]} never '
+                      f'returned ({s.failure_info})', hist))
+    if s.thread_errors:
+        raise RuntimeError(s.thread_errors[0][2])
+    for clause, detail, hist in found:
+        last = hist[-1]
+        ck.violation(clause, {
+            'component': 'SlidingWindowSemaphore', 'mode': 'sequential',
+            'cap': cap, 'op': last[0], 'detail': detail, 'history': hist,
+            'last_result': last[3],
+        }, replay={'kind': 'c12-seq', 'cap': cap, 'ops': hist})
+    return count[0]
 
 
 # ---------------------------------------------------------------------------
